@@ -178,8 +178,12 @@ func (h *HandlerSet) HandleCheckComplexity(ctx context.Context, request mcp.Call
 	if cfg != nil && cfg.Complexity.MaxComplexity > 0 {
 		maxComplexity = cfg.Complexity.MaxComplexity
 	}
+	// The request states only a max_complexity given as argument (validated
+	// against min_complexity); the use case merges in the configuration file's value
+	requestMaxComplexity := 0
 	if mc, ok := args["max_complexity"].(float64); ok {
 		maxComplexity = int(mc)
+		requestMaxComplexity = maxComplexity
 	}
 
 	showDetails := true
@@ -226,7 +230,7 @@ func (h *HandlerSet) HandleCheckComplexity(ctx context.Context, request mcp.Call
 	req := domain.ComplexityRequest{
 		Paths:           []string{path},
 		MinComplexity:   minComplexity,
-		MaxComplexity:   maxComplexity,
+		MaxComplexity:   requestMaxComplexity,
 		ShowDetails:     showDetails,
 		Recursive:       cfg == nil || cfg.Analysis.Recursive,
 		OutputFormat:    domain.OutputFormatJSON,
